@@ -54,7 +54,26 @@ def build(repo, it, st, use_ctl, obliq_on):
         '_tidal_objects': [s.host, s.world], '_tidal_host': s.host, '_star': None, '_host_tide_raiser': s.world, '_star_host': False, '_all_objects': [s.host, s.world],
         '_eccentricity_time_derivatives': [None, None], '_semi_major_axis_time_derivatives': [None, None], '_orbital_motion_time_derivatives': [None, None], '_last_calc_used_dual_body': False})
     s.world.attrs['orbit'] = s.orbit
+    for o in (s.tides, s.world, s.orbit):
+        constructor_defaults(it, o)
     return s
+
+
+def constructor_defaults(it, obj):
+    """state attributes the harness does not name but the class's __init__ (anywhere up the bases) initialises to a literal: a cache or
+    flag added to the class is modelled from its constructor value instead of stopping the analysis"""
+    todo = [obj.cls]; seen = set()
+    while todo:
+        c = todo.pop(0)
+        if id(c[2]) in seen: continue
+        seen.add(id(c[2]))
+        for st in c[2].body:
+            if isinstance(st, ast.FunctionDef) and st.name == '__init__':
+                for n in ast.walk(st):
+                    if isinstance(n, ast.Assign) and len(n.targets) == 1 and isinstance(n.targets[0], ast.Attribute) and isinstance(n.targets[0].value, ast.Name) \
+                            and n.targets[0].value.id == 'self' and isinstance(n.value, ast.Constant) and n.targets[0].attr not in obj.attrs:
+                        obj.attrs[n.targets[0].attr] = n.value.value
+        todo += it.bases_of(c)
 
 
 def make_interp(repo):
@@ -113,6 +132,13 @@ MUTATORS = {
     'world.set_state(semi_major_axis)': ('a', lambda it, s, v: call(it, s.world, 'set_state', semi_major_axis=v)),
     'orbit.set_state(eccentricity)': ('e', lambda it, s, v: call(it, s.orbit, 'set_state', s.world, eccentricity=v)),
 }
+# batched changes: the value is stored with run_updates=False and takes effect with the next change that does update
+DEFERRED = {
+    'world.set_fixed_q(deferred)': ('Q', lambda it, s, v: call(it, s.world, 'set_fixed_q', v, run_updates=False)),
+    'world.set_fixed_dt(deferred)': ('dt', lambda it, s, v: call(it, s.world, 'set_fixed_dt', v, run_updates=False)),
+    'tides.set_state(fixed_q, fixed_dt; deferred)': ('Q+dt', lambda it, s, v: call(it, s.tides, 'set_state', fixed_q=v[0], fixed_dt=v[1], run_updates=False)),
+}
+MUTATORS.update(DEFERRED)
 
 
 def exposed(s):
@@ -140,13 +166,16 @@ def run(chk):
     for use_ctl in (False, True):
         for obliq_on in ((True,) if chk.tier == 'quick' else (True, False)):
             model = ('CTL' if use_ctl else 'CPL') + (', obliquity tides on' if obliq_on else ', obliquity tides off')
-            singles = list(MUTATORS)
+            singles = [m_ for m_ in MUTATORS if m_ not in DEFERRED]
             if chk.tier == 'quick':
                 pairs = [('orbit.set_eccentricity', 'world.set_fixed_q'), ('world.set_spin_frequency', 'orbit.set_eccentricity'), ('world.set_obliquity', 'orbit.set_semi_major_axis'),
                          ('world.set_fixed_q', 'world.set_spin_frequency'), ('orbit.set_semi_major_axis', 'orbit.set_eccentricity')]
             else:
                 base = ['orbit.set_eccentricity', 'world.set_obliquity', 'world.set_spin_frequency', 'orbit.set_semi_major_axis', 'world.set_fixed_q', 'world.set_fixed_dt']
                 pairs = [(a_, b_) for a_ in base for b_ in base if a_ != b_]
+            followups = ['orbit.set_eccentricity', 'world.set_spin_frequency'] if chk.tier == 'quick' else ['orbit.set_eccentricity', 'world.set_spin_frequency', 'world.set_obliquity', 'orbit.set_semi_major_axis',
+                                                                                                   'world.set_state(eccentricity)', 'orbit.set_state(eccentricity)']
+            pairs = pairs + [(d_, f_) for d_ in DEFERRED for f_ in followups]
             seqs = [(m,) for m in singles] + pairs
             for seq in seqs:
                 nseq += 1
@@ -159,6 +188,11 @@ def run(chk):
                     final = dict(st0)
                     for i, mname in enumerate(seq):
                         key, fn_ = MUTATORS[mname]
+                        if key == 'Q+dt':
+                            newv = (X.atom(f'Q{i + 1}', 'pos'), X.atom(f'dt{i + 1}', 'pos'))
+                            fn_(it, s, newv)
+                            final['Q'], final['dt'] = newv
+                            continue
                         newv = X.atom(f'{key}{i + 1}', 'pos' if key in ('e', 'a', 'Q', 'dt') else 'real')
                         fn_(it, s, newv)
                         final[key] = newv
